@@ -360,10 +360,10 @@ func c26FuncFailPos(thorough bool) []c26FuncNS {
 		{"fn-and", "f() { %F; echo inf; }; f && echo T"},
 		{"subshell", "( %F; echo insub )"},
 		{"subshell-or", "( %F; echo insub ) || echo alt"},
-		{"cs-assign", "x=$(%F; echo a); echo \"x=$x\""},
+		{"cs-assign", "x=$( %F; echo a); echo \"x=$x\""},
 		{"cs-assign-last", "x=$(echo a; %F); echo \"x=$x\""},
-		{"local-cs", "f() { local x=$(%F); echo \"inf:$?\"; }; f"},
-		{"local-then-cs", "f() { local x=1; x=$(%F); echo \"inf:$?\"; }; f"},
+		{"local-cs", "f() { local x=$( %F); echo \"inf:$?\"; }; f"},
+		{"local-then-cs", "f() { local x=1; x=$( %F); echo \"inf:$?\"; }; f"},
 		{"pipe-first", "%F | true"},
 		{"pipe-last", "true | %F"},
 		{"pipe-first-pf", "set -o pipefail; %F | true"},
@@ -385,12 +385,12 @@ func c26FuncFailPos(thorough bool) []c26FuncNS {
 			c26FuncNS{"subshell-cond", "if ( %F; echo insub ); then echo T; fi"},
 			c26FuncNS{"subshell-not", "! ( %F; echo insub )"},
 			c26FuncNS{"subshell-last", "( echo insub; %F )"},
-			c26FuncNS{"cs-arg", "echo \"a$(%F; echo b)\""},
-			c26FuncNS{"cs-only", "x=$(%F)"},
-			c26FuncNS{"cs-cond", "if x=$(%F; echo a); then echo \"T$x\"; fi"},
-			c26FuncNS{"export-cs", "export x=$(%F); echo \"e:$?\""},
-			c26FuncNS{"declare-cs", "declare x=$(%F); echo \"d:$?\""},
-			c26FuncNS{"readonly-cs", "readonly x=$(%F); echo \"r:$?\""},
+			c26FuncNS{"cs-arg", "echo \"a$( %F; echo b)\""},
+			c26FuncNS{"cs-only", "x=$( %F)"},
+			c26FuncNS{"cs-cond", "if x=$( %F; echo a); then echo \"T$x\"; fi"},
+			c26FuncNS{"export-cs", "export x=$( %F); echo \"e:$?\""},
+			c26FuncNS{"declare-cs", "declare x=$( %F); echo \"d:$?\""},
+			c26FuncNS{"readonly-cs", "readonly x=$( %F); echo \"r:$?\""},
 			c26FuncNS{"pipe-last-pf", "set -o pipefail; true | %F"},
 			c26FuncNS{"pipe-mid-pf", "set -o pipefail; true | %F | true"},
 			c26FuncNS{"pipe-not", "! %F | true"},
@@ -406,7 +406,7 @@ func c26FuncFailPos(thorough bool) []c26FuncNS {
 			c26FuncNS{"sete-in-cond-fn", "set +e; f() { set -e; %F; echo inf; }; if f; then echo T; fi; %F; echo no"},
 			c26FuncNS{"case-cond-fn", "f() { %F; echo inf; }; case $(f) in inf) echo m;; *) echo n;; esac"},
 			c26FuncNS{"trap-exit", "trap 'echo \"T:$?\"' EXIT; %F"},
-			c26FuncNS{"heredoc-cs", "read x <<EOF\n$(%F; echo a)\nEOF\necho \"x=$x\""},
+			c26FuncNS{"heredoc-cs", "read x <<EOF\n$( %F; echo a)\nEOF\necho \"x=$x\""},
 		)
 	}
 	return pos
@@ -594,7 +594,7 @@ func c26FuncErrTrap(thorough bool, emit c26EmitFn) {
 		{"group-or", "{ %F; echo ing; } || echo alt"},
 		{"for-body", "for i in 1 2; do %F; echo i$i; done"},
 		{"case-body", "case a in a) %F; echo inc;; esac"},
-		{"cs-assign", "x=$(%F; echo a); echo \"x=$x\""},
+		{"cs-assign", "x=$( %F; echo a); echo \"x=$x\""},
 		{"cs-assign-last", "x=$(echo a; %F); echo \"x=$x\""},
 		{"pipe-first", "%F | true"},
 		{"pipe-last", "true | %F"},
@@ -647,6 +647,16 @@ func c26FuncErrTrap(thorough bool, emit c26EmitFn) {
 	for _, t := range traps {
 		for _, o := range opts {
 			for _, p := range flat {
+				if t.name == "setvar" {
+					// the handler's output differs from run to run, so the recorded
+					// repetition of the ERR trap would not be recognised: only
+					// positions where the trap runs once
+					switch p.name {
+					case "plain", "and-left", "and-last", "or-left", "or-last", "not", "not-true", "twice", "cs-assign", "if-cond", "while-cond":
+					default:
+						continue
+					}
+				}
 				if !thorough && o.name == "e" {
 					switch p.name {
 					case "plain", "and-last", "or-left", "if-body", "group", "cs-assign", "pipe-last", "not", "twice":
@@ -658,6 +668,9 @@ func c26FuncErrTrap(thorough bool, emit c26EmitFn) {
 			}
 		}
 		for _, o := range deepOpts {
+			if t.name == "setvar" {
+				continue
+			}
 			for _, p := range deep {
 				if !thorough && (p.name == "subshell-last" || p.name == "fn-or" || p.name == "fn-return") {
 					continue
